@@ -1281,6 +1281,195 @@ def inline_body(crate, bj, inlinable, depth=0, _stack=()):
     return out
 
 
+def _places(x, out):
+    """all place dicts ({local, proj}) and index-projection dicts inside a MIR JSON fragment"""
+    if isinstance(x, dict):
+        if "local" in x and ("proj" in x or x.get("k") == "index"):
+            out.append(x)
+        for v in x.values():
+            _places(v, out)
+    elif isinstance(x, list):
+        for v in x:
+            _places(v, out)
+    return out
+
+
+def ssa_split(bj):
+    """Split re-assigned locals into one local per definition where that is exact: a local that is never borrowed or partially
+    assigned, and each of whose uses is reached by exactly one of its definitions (straight-line reassignment, e.g. a cursor
+    `rest = tail;` between reads).  The term builder joins all definitions of a local; after the split the join is the precise
+    reaching definition.  Locals that need a real phi (loop-carried or branch-joined) are left alone.  Normal (non-cleanup)
+    control flow only."""
+    blocks = bj["blocks"]
+    n = len(blocks)
+    nloc = len(bj["locals"])
+    # --- candidate locals: >= 2 full definitions, never address-taken / partially defined
+    defs = {}       # local -> [(bi, pos)]   pos = stmt index, or len(stmts) for the terminator
+    bad = set()
+    for bi, blk in enumerate(blocks):
+        if blk["cleanup"]:
+            continue
+        for si, st in enumerate(blk["stmts"]):
+            if st["k"] == "assign":
+                lhs = st["lhs"]
+                if not lhs["proj"]:
+                    defs.setdefault(lhs["local"], []).append((bi, si))
+                elif lhs["proj"][0]["k"] != "deref":
+                    bad.add(lhs["local"])
+                rv = st["rv"]
+                if rv["k"] in ("ref", "rawptr") and (not rv["place"]["proj"] or rv["place"]["proj"][0]["k"] != "deref"):
+                    bad.add(rv["place"]["local"])
+            elif st["k"] == "setdiscr":
+                bad.add(st["lhs"]["local"])
+        t = blk["term"]
+        if t["k"] == "call" and t.get("dest") is not None:
+            if not t["dest"]["proj"]:
+                defs.setdefault(t["dest"]["local"], []).append((bi, len(blk["stmts"])))
+            elif t["dest"]["proj"][0]["k"] != "deref":
+                bad.add(t["dest"]["local"])
+        if t["k"] == "drop" and t["place"]["proj"]:
+            pass
+    cands = [l for l, ds in defs.items() if len(ds) >= 2 and l not in bad and l != 0]
+    if not cands:
+        return bj
+    succ = [[] for _ in range(n)]
+    for bi, blk in enumerate(blocks):
+        if blk["cleanup"]:
+            continue
+        t = blk["term"]
+        k = t["k"]
+        if k == "goto":
+            succ[bi] = [t["target"]]
+        elif k == "switch":
+            succ[bi] = sorted({b for _, b in t["targets"]} | {t["otherwise"]})
+        elif k in ("call", "drop", "assert", "falseedge", "yield", "inlineasm"):
+            if t.get("target") is not None:
+                succ[bi] = [t["target"]]
+    pred = [[] for _ in range(n)]
+    for bi in range(n):
+        for sb in succ[bi]:
+            pred[sb].append(bi)
+    out = bj
+    changed_any = False
+    new_locals = list(bj["locals"])
+    new_debug = list(bj["debug"])
+    newblocks = None
+    for l in cands:
+        ds = defs[l]
+        entry_def = -1 if l <= bj["arg_count"] else None        # parameters carry a value on entry
+        last_in_block = {}
+        for di, (bi, pos) in enumerate(ds):
+            last_in_block[bi] = di if bi not in last_in_block or ds[last_in_block[bi]][1] < pos else last_in_block[bi]
+        IN = [set() for _ in range(n)]
+        OUT = [set() for _ in range(n)]
+        if entry_def is not None:
+            IN[0] = {entry_def}
+        work = list(range(n))
+        while work:
+            bi = work.pop()
+            if blocks[bi]["cleanup"]:
+                continue
+            i = set(IN[bi])
+            for pb in pred[bi]:
+                i |= OUT[pb]
+            if bi == 0 and entry_def is not None:
+                i.add(entry_def)
+            o = {last_in_block[bi]} if bi in last_in_block else set(i)
+            if i != IN[bi] or o != OUT[bi]:
+                IN[bi], OUT[bi] = i, o
+                work.extend(succ[bi])
+        # reaching definition of every use
+        ok = True
+        use_ver = {}     # (bi, pos, 'use') -> def index
+        for bi, blk in enumerate(blocks):
+            if blk["cleanup"] or not ok:
+                continue
+            cur = IN[bi]
+            items = list(enumerate(blk["stmts"])) + [(len(blk["stmts"]), blk["term"])]
+            for pos, x in items:
+                # uses first (the right-hand side is evaluated before the definition takes effect)
+                if pos < len(blk["stmts"]):
+                    parts = [x.get("rv")] + ([x["lhs"]] if x["k"] in ("assign", "setdiscr") and x["lhs"]["proj"] else [])
+                    uses = _places(parts, [])
+                else:
+                    y = {k_: v_ for k_, v_ in x.items() if k_ != "dest"}
+                    uses = _places(y, [])
+                    if x.get("dest") is not None and x["dest"]["proj"]:
+                        uses += _places(x["dest"], [])
+                if any(u["local"] == l for u in uses):
+                    if len(cur) != 1:
+                        ok = False
+                        break
+                    use_ver[(bi, pos)] = next(iter(cur))
+                for di, (dbi, dpos) in enumerate(ds):
+                    if dbi == bi and dpos == pos:
+                        cur = {di}
+        if not ok:
+            continue
+        # --- rename: definition di -> fresh local (definition 0 and the entry value keep the original local)
+        ver_local = {-1: l, 0: l}
+        for di in range(1, len(ds)):
+            ver_local[di] = len(new_locals)
+            new_locals.append(dict(bj["locals"][l]))
+        for d in bj["debug"]:
+            if isinstance(d.get("at"), dict) and d["at"].get("local") == l and not d["at"].get("proj"):
+                for di in range(1, len(ds)):
+                    dd = dict(d)
+                    dd["at"] = dict(d["at"], local=ver_local[di])
+                    dd["arg"] = None
+                    new_debug.append(dd)
+        if newblocks is None:
+            newblocks = [dict(b_, stmts=list(b_["stmts"])) for b_ in blocks]
+        for bi, blk in enumerate(newblocks):
+            if blk["cleanup"]:
+                continue
+            for si, st in enumerate(blk["stmts"]):
+                uv = use_ver.get((bi, si))
+                dv = None
+                for di, (dbi, dpos) in enumerate(ds):
+                    if dbi == bi and dpos == si:
+                        dv = di
+                if uv is None and dv is None:
+                    continue
+                st2 = dict(st)
+                if uv is not None and ver_local[uv] != l:
+                    if "rv" in st2:
+                        st2["rv"] = _rename_local_json(st["rv"], l, ver_local[uv])
+                    if st["k"] in ("assign", "setdiscr") and st["lhs"]["proj"]:
+                        st2["lhs"] = _rename_local_json(st["lhs"], l, ver_local[uv])
+                if dv is not None and ver_local[dv] != l:
+                    st2["lhs"] = dict(st["lhs"], local=ver_local[dv])
+                blk["stmts"][si] = st2
+            pos = len(blk["stmts"])
+            uv = use_ver.get((bi, pos))
+            dv = None
+            for di, (dbi, dpos) in enumerate(ds):
+                if dbi == bi and dpos == pos:
+                    dv = di
+            if uv is not None or dv is not None:
+                t = blk["term"]
+                t2 = dict(t)
+                if uv is not None and ver_local[uv] != l:
+                    for k_ in list(t.keys()):
+                        if k_ != "dest":
+                            t2[k_] = _rename_local_json(t[k_], l, ver_local[uv])
+                    if t.get("dest") is not None and t["dest"]["proj"]:
+                        t2["dest"] = _rename_local_json(t["dest"], l, ver_local[uv])
+                if dv is not None and ver_local[dv] != l:
+                    t2["dest"] = dict(t["dest"], local=ver_local[dv])
+                blk["term"] = t2
+        changed_any = True
+        blocks = newblocks
+    if not changed_any:
+        return bj
+    out = dict(bj)
+    out["blocks"] = newblocks
+    out["locals"] = new_locals
+    out["debug"] = new_debug
+    out["ssa_split"] = True
+    return out
+
+
 def normalise_crate(crate, anchors):
     """replace every body by its normal form; non-anchor crate-local functions that were spliced into all their callers are
     removed from crate.bodies (kept in crate.helper_bodies)"""
@@ -1291,7 +1480,7 @@ def normalise_crate(crate, anchors):
         if j["kind"] == "Promoted":
             newj[p] = j
         else:
-            newj[p] = inline_body(crate, j, inlinable)
+            newj[p] = ssa_split(inline_body(crate, j, inlinable))
     crate.helper_bodies = {}
     crate.bodies = {}
     for p, j in newj.items():
